@@ -281,9 +281,9 @@ def build_for(case):
         # (some scenarios run on a clock that starts below zero and crosses it)
         arena.start = [-1.5, -1, -0.5][case['index'] % 3] if case['index'] % 11 == 7 else 0
         if scenario['kind'] == 'capacities':
-            resource = Capacities(**scenario['supply'])
+            resource = inject.made(case, lambda: Capacities(**scenario['supply']))
         else:
-            resource = Resources(**scenario['supply'])
+            resource = inject.made(case, lambda: Resources(**scenario['supply']))
         if case['index'] % 5 < 2:
             earlier_simulation(resource, scenario['supply'])
         ledger = Ledger(arena, fields)
@@ -341,10 +341,28 @@ def build_for(case):
                                 await (time + spec['hold'])
                             else:
                                 await instant
+                            if block % 7 == 3 and not spec.get('shared'):
+                                # (not with a request object that several blocks have entered
+                                # at once: its share holds the amount once per entry)
+                                # a claim on the share that is refused, the refusal being handled
+                                # outside of this block: the block is left by ResourcesUnavailable
+                                ledger.stats['left_by_inner_refusal'] = ledger.stats.get(
+                                    'left_by_inner_refusal', 0) + 1
+                                # (within the capacity of the share - asking for more than
+                                # that is a usage error - but all of it is taken already)
+                                if any(amounts.values()):
+                                    async with share.borrow(**amounts):
+                                        async with share.claim(**amounts):
+                                            ledger.violation(
+                                                'claim-granted-unavailable',
+                                                '%s: a claim of %s on a share all of which is '
+                                                'borrowed was granted' % (name, amounts))
                         finally:
                             pool.blocks[block][0] = 'releasing'
                             arena.log(name, 'release-start', pool.name, amounts)
                 except ResourcesUnavailable:
+                    if pool.blocks[block][0] == 'releasing':
+                        return      # (the refusal of the inner claim, handled out here)
                     ledger.stats['claims_refused'] += 1
                     arena.log(name, 'unavailable', pool.name, amounts)
                     if not spec['claim']:
